@@ -27,6 +27,7 @@ pub struct Swarm {
     pub sub_odds: u32,
     /// if set, operand scales are squeezed toward this regime polarity to build up deep states
     pub small_bias: u32,
+    pub mode: Mode,
 }
 
 fn pick_qt(rng: &mut Prng) -> QT {
@@ -116,6 +117,7 @@ pub fn draw_swarm(rng: &mut Prng, mode: Mode, st: &mut Stats) -> Swarm {
         w_spell,
         sub_odds: rng.below(7) as u32,
         small_bias: rng.below(4) as u32,
+        mode,
     }
 }
 
@@ -224,7 +226,17 @@ fn boundary_image(rng: &mut Prng, qt: QT) -> Option<Img> {
     let delta = match rng.below(6) {
         0 | 1 => Wide::ZERO,
         2 => Wide::from_u128(1),
-        3 | 4 => Wide::one_shl(rng.below(g.max(1) as u64) as u32),
+        3 | 4 => {
+            // a single far-away bit: anywhere below the rounding position, or at a position that
+            // is structurally special for multi-limb code (64 below the leading bit, limb edges)
+            let h = base.top_bit().unwrap_or(0);
+            let pos = match rng.below(4) {
+                0 | 1 => rng.below(g.max(1) as u64) as u32,
+                2 => h.saturating_sub(62 + rng.below(5) as u32),
+                _ => (64 * rng.below(8) as u32 + [0u32, 1, 63][rng.below(3) as usize]).min(g.saturating_sub(1)),
+            };
+            Wide::one_shl(pos.min(g.saturating_sub(1)))
+        }
         _ => Wide::from_u128((rng.next() >> rng.below(64)) as u128),
     };
     let mut v = if rng.chance(1, 2) { base.add(&delta) } else { base.sub(&delta) };
@@ -397,16 +409,26 @@ pub struct Generated {
 }
 
 pub fn generate_and_run(seed: u64, run: u64, mode: Mode, st: &mut Stats) -> Generated {
+    generate_and_run_traced(seed, run, mode, st, None)
+}
+
+/// As `generate_and_run`; with a trace sink every event is written (and flushed) *before* it is
+/// applied, so that a run which never returns leaves the history that leads to the hang.
+pub fn generate_and_run_traced(seed: u64, run: u64, mode: Mode, st: &mut Stats, mut trace: Option<&mut dyn std::io::Write>) -> Generated {
     let stream = match mode {
         Mode::C04 => STREAM_QUIRE_C04,
         Mode::C12 => STREAM_QUIRE_C12,
     };
     let mut rng = Prng::for_run(seed, stream, run);
     let sw = draw_swarm(&mut rng, mode, st);
+    if let Some(t) = trace.as_mut() {
+        let _ = writeln!(t, "type {}\ninit_via {}", sw.qt.name(), sw.init_via);
+        let _ = t.flush();
+    }
     match sw.qt {
-        QT::Q8 => gen_t::<softposit::Q8E0>(&mut rng, &sw, st),
-        QT::Q16 => gen_t::<softposit::Q16E1>(&mut rng, &sw, st),
-        QT::Q32 => gen_t::<softposit::Q32E2>(&mut rng, &sw, st),
+        QT::Q8 => gen_t::<softposit::Q8E0>(&mut rng, &sw, st, trace),
+        QT::Q16 => gen_t::<softposit::Q16E1>(&mut rng, &sw, st, trace),
+        QT::Q32 => gen_t::<softposit::Q32E2>(&mut rng, &sw, st, trace),
     }
 }
 
@@ -549,10 +571,10 @@ fn boundary_acc(rng: &mut Prng, qt: QT, r: &Wide) -> Option<Acc> {
     pow2_acc(rng, qt, s, sub)
 }
 
-fn gen_t<S: Sut>(rng: &mut Prng, sw: &Swarm, st: &mut Stats) -> Generated {
+fn gen_t<S: Sut>(rng: &mut Prng, sw: &Swarm, st: &mut Stats, mut trace: Option<&mut dyn std::io::Write>) -> Generated {
     let qt = sw.qt;
     let mut case = Case { qt, init_via: sw.init_via, events: Vec::new() };
-    let mut runner = match Runner::<S>::new(sw.init_via, st) {
+    let mut runner = match Runner::<S>::new(sw.init_via, sw.mode, st) {
         Ok(r) => r,
         Err(f) => return Generated { case, failure: Some(f), digest: 0, nontrivial: false },
     };
@@ -566,7 +588,16 @@ fn gen_t<S: Sut>(rng: &mut Prng, sw: &Swarm, st: &mut Stats) -> Generated {
     for _ in 0..sw.len {
         let mut chosen: Option<(Ev, bool)> = None;
         for _try in 0..24 {
-            let kind = rng.weighted(&sw.w_event);
+            let mut kind = rng.weighted(&sw.w_event);
+            // C12: a state that was just placed on a rounding boundary (injected image, boundary
+            // accumulate) is the interesting input of the residual split — go there half the time
+            if sw.mode == Mode::C12
+                && sw.w_event[9] + sw.w_event[10] > 0
+                && matches!(case.events.last(), Some(Ev::Inject(_)))
+                && rng.chance(1, 2)
+            {
+                kind = if rng.chance(1, 2) { 9 } else { 10 };
+            }
             let mut is_cancel = false;
             let ev = match kind {
                 0 => Ev::Acc(draw_acc(rng, sw, &mut prev, false)),
@@ -670,6 +701,10 @@ fn gen_t<S: Sut>(rng: &mut Prng, sw: &Swarm, st: &mut Stats) -> Generated {
             fired_special = true;
         }
         case.events.push(ev.clone());
+        if let Some(t) = trace.as_mut() {
+            let _ = writeln!(t, "{}", ev.text());
+            let _ = t.flush();
+        }
         if let Err(f) = runner.apply(&ev) {
             failure = Some(f);
             break;
